@@ -452,6 +452,7 @@ type outcome struct {
 	status string // judged | rejected | nocompile | unmapped | new_unwritable | harness
 	err    error
 	notes  []string // classes observed while judging
+	ps     *projStats
 }
 
 // projStats says what a projection onto the old schema dropped.
@@ -700,7 +701,9 @@ func topUnknown(st *ref.StructT, b []byte) (int, error) {
 	return n, nil
 }
 
-func judgeEvo(c evoCase) outcome {
+// judgeEvo decides one case.  With excludeKnown (generator side only, never
+// in replay) the exact shape of the listed finding is left out.
+func judgeEvo(c evoCase, excludeKnown bool) outcome {
 	sNew, err := drv.Open(c.FilesNew, c.Main, c.GenNew, nil)
 	if err != nil {
 		return outcome{status: "harness", err: fmt.Errorf("harness: %v", err)}
@@ -737,25 +740,19 @@ func judgeEvo(c evoCase) outcome {
 	if err != nil {
 		return outcome{status: "harness", err: fmt.Errorf("harness: %v", err)}
 	}
-	v := v0.(*ref.StructV)
 	ntop := &ref.Type{Kind: ref.Struct, Struct: nst}
 	otop := &ref.Type{Kind: ref.Struct, Struct: ost}
-	want := ref.Normalise(ntop, v)
-	ps := &projStats{dropped: map[string]int{}}
-	proj := projectStruct(nst, ost, v, 0, ps)
-	wantOld := ref.Normalise(otop, proj)
 	keep := c.GenOld == genKeep
 	callNew, callOld := mkCaller(sNew), mkCaller(sOld)
 	var notes []string
-	fail := func(format string, args ...interface{}) outcome {
-		return outcome{status: "judged", err: fmt.Errorf(format, args...), notes: notes}
-	}
 	harness := func(err error) outcome { return outcome{status: "harness", err: err} }
 	isHarness := func(err error) bool { return strings.HasPrefix(err.Error(), "harness:") }
-	ctx := fmt.Sprintf("\n  old lacks: %s\n  value (new schema) %s", strings.Join(c.Removed, "; "), ref.Show(v))
 
-	// step 0: data written by the code of the newer version
-	resp, err := callNew(map[string]interface{}{"op": "write", "type": tiNew.Key, "value": ref.StructToJSON(nst, v)})
+	// step 0: data written by the code of the newer version.  The value that
+	// travels is the one these bytes denote under the new schema (strict
+	// reference decoder): the generated constructor may have completed the drawn
+	// value with defaults (a struct literal default that leaves fields out).
+	resp, err := callNew(map[string]interface{}{"op": "write", "type": tiNew.Key, "value": ref.StructToJSON(nst, v0.(*ref.StructV))})
 	if err != nil {
 		return harness(err)
 	}
@@ -763,9 +760,23 @@ func judgeEvo(c evoCase) outcome {
 		return outcome{status: "new_unwritable"} // not a value the newer code can send (C02 decides whether it should)
 	}
 	data, _ := hex.DecodeString(resp["hex"].(string))
-	if dr, derr := ref.Decode(nst, data, false); derr != nil || !ref.Equal(ref.Normalise(ntop, dr.Value), want) {
-		return outcome{status: "new_write_differs"} // C02's business
+	dr0, derr := ref.Decode(nst, data, false)
+	if derr != nil {
+		return outcome{status: "new_write_invalid"} // C02's business
 	}
+	v := dr0.Value
+	want := ref.Normalise(ntop, v)
+	ps := &projStats{dropped: map[string]int{}}
+	proj := projectStruct(nst, ost, v, 0, ps)
+	wantOld := ref.Normalise(otop, proj)
+	if excludeKnown && keep && ps.emptiedUnions > 0 {
+		// a union whose set member old does not know, re-written by old with keep_unknown_fields
+		return outcome{status: "excluded_known"}
+	}
+	fail := func(format string, args ...interface{}) outcome {
+		return outcome{status: "judged", err: fmt.Errorf(format, args...), notes: notes, ps: ps}
+	}
+	ctx := fmt.Sprintf("\n  old lacks: %s\n  value (new schema) %s", strings.Join(c.Removed, "; "), ref.Show(v))
 
 	fresh := map[string]*ref.StructV{}
 	loadFresh := func() error {
@@ -848,7 +859,7 @@ func judgeEvo(c evoCase) outcome {
 						return fail("hop %d: %s cannot re-write %s after reading data of the newer version although what it holds is a valid value of the old schema: err=%v panic=%v\n  projection %s%s", hop, oldWho, c.Struct, rb.reerr, rb.repanic, ref.Show(proj), ctx)
 					}
 					notes = append(notes, "chain_stopped:projection_not_writable")
-					return outcome{status: "judged", notes: notes}
+					return outcome{status: "judged", notes: notes, ps: ps}
 				}
 				dr, derr := ref.Decode(ost, rb.rehex, false)
 				if derr != nil {
@@ -882,32 +893,32 @@ func judgeEvo(c evoCase) outcome {
 			if rb.repanic != nil || rb.reerr != nil {
 				// the newer code cannot write what it read (e.g. an added non-optional union field is empty): not this property's business
 				notes = append(notes, "chain_stopped:new_rewrite_failed")
-				return outcome{status: "judged", notes: notes}
+				return outcome{status: "judged", notes: notes, ps: ps}
 			}
 			data = rb.rehex
 			if keep {
 				// the third hop starts from bytes that must still carry the original value
 				if dr, derr := ref.Decode(nst, data, false); derr != nil || !ref.Equal(ref.Normalise(ntop, dr.Value), want) {
 					notes = append(notes, "chain_stopped:new_rewrite_differs")
-					return outcome{status: "judged", notes: notes}
+					return outcome{status: "judged", notes: notes, ps: ps}
 				}
 			} else {
 				// plain: from here on the travelling value is the projection plus defaults
 				dr, derr := ref.Decode(nst, data, false)
 				if derr != nil {
 					notes = append(notes, "chain_stopped:new_rewrite_differs")
-					return outcome{status: "judged", notes: notes}
+					return outcome{status: "judged", notes: notes, ps: ps}
 				}
 				ps2 := &projStats{dropped: map[string]int{}}
 				proj = projectStruct(nst, ost, dr.Value, 0, ps2)
 				if !ref.Equal(ref.Normalise(otop, proj), wantOld) {
 					notes = append(notes, "chain_stopped:new_rewrite_differs")
-					return outcome{status: "judged", notes: notes}
+					return outcome{status: "judged", notes: notes, ps: ps}
 				}
 			}
 		}
 	}
-	return outcome{status: "judged", notes: notes}
+	return outcome{status: "judged", notes: notes, ps: ps}
 }
 
 func roundJSON(v interface{}) interface{} {
@@ -1108,6 +1119,7 @@ func TestEvolve(t *testing.T) {
 			base.Removed = append(base.Removed, r.String())
 		}
 		// build the three drivers first: a pair is usable only if both versions are
+		var sessions []*drv.Session
 		for _, b := range []struct {
 			files map[string]string
 			gen   string
@@ -1123,6 +1135,7 @@ func TestEvolve(t *testing.T) {
 				vt.Sample(map[string]interface{}{"program": p.Describe(), "who": b.who, "status": s.Status, "detail": vt.Truncate(s.Detail, 300)})
 				return
 			}
+			sessions = append(sessions, s)
 		}
 		vt.Class("pair:ok")
 		for _, r := range rem {
@@ -1131,10 +1144,25 @@ func TestEvolve(t *testing.T) {
 		aff := affected(schNew, schOld)
 		var affList, all []*ref.StructT
 		for _, st := range schNew.Structs {
+			// structs of a file the main file does not include are not generated at all
+			mapped := true
+			for _, s := range sessions {
+				if _, ok := s.Type(st.Name); !ok {
+					mapped = false
+				}
+			}
+			if !mapped {
+				vt.Class("struct_not_generated")
+				continue
+			}
 			all = append(all, st)
 			if aff[st.Name] {
 				affList = append(affList, st)
 			}
+		}
+		if len(all) == 0 {
+			vt.Class("pair:no_generated_struct")
+			return
 		}
 		exclUnion := vt.Known(prop, fdUnionRewrite)
 		nvals := rapid.IntRange(50, 200).Draw(rt, "nvalues")
@@ -1157,22 +1185,21 @@ func TestEvolve(t *testing.T) {
 			if rapid.Bool().Draw(rt, "keep") {
 				c.GenOld = genKeep
 			}
-			ps := &projStats{dropped: map[string]int{}}
-			projectStruct(st, schOld.ByName(st.Name), v, 0, ps)
-			if c.GenOld == genKeep && ps.emptiedUnions > 0 && exclUnion {
-				// exactly the shape of the listed finding: a union whose set member old does not know, re-written by old with keep_unknown_fields
-				vt.Excluded(fdUnionRewrite)
-				continue
-			}
 			vt.Eval()
-			o := judgeEvo(c)
-			vt.Class("B:status:" + o.status)
+			o := judgeEvo(c, exclUnion)
 			if o.status == "harness" {
 				rt.Fatalf("%v", o.err)
 			}
+			if o.status == "excluded_known" {
+				// exactly the shape of the listed finding
+				vt.Excluded(fdUnionRewrite)
+				continue
+			}
+			vt.Class("B:status:" + o.status)
 			if o.status != "judged" {
 				continue
 			}
+			ps := o.ps
 			mode := "plain"
 			if c.GenOld == genKeep {
 				mode = "keep_unknown"
@@ -1217,7 +1244,7 @@ func TestReplay(t *testing.T) {
 			if err := vt.Decode(raw, &c); err != nil {
 				return err
 			}
-			return judgeEvo(c).err
+			return judgeEvo(c, false).err
 		},
 	})
 }
